@@ -109,11 +109,25 @@ def apply(dreye, obj, a, shadow):
         obj.register_uncertainty(None if k == 0 else (pad6(UNC[k]) if shadow.get("arraydom") else UNC[k].copy()))
     elif op == "fit":
         shadow["pre_fit"] = True
-        obj.fit()
+        internal_fit(obj, k)
     elif op == "query":
         heavy(obj, shadow.get("arraydom"))
     else:
         raise MachineryFailure("unknown op %r" % op)
+
+
+def internal_fit(obj, kind):
+    """the fitting methods in their internal mode (no explicit targets): X and B are stored on the object"""
+    if kind == 0:
+        obj.fit()
+    elif kind == 1:
+        obj.fit_underdetermined(l2_eps=1e-4)
+    elif kind == 2:
+        obj.minimize_variance(l2_eps=1e-3)
+    elif kind == 3:
+        obj.fit_adaptive(solver="CLARABEL")
+    else:
+        raise MachineryFailure("unknown fit kind %r" % kind)
 
 
 def fresh_from(dreye, est, B=None, arraydom=False):
@@ -355,7 +369,7 @@ def _replay_inner(st, mode, bad):
     # ---- fit post-condition (the last action was an internal fit) ------------------
     if last == "fit" and pre_est_B is not None:
         ref = fresh_from(dreye, est, B=pre_est_B, arraydom=ad)
-        ref.fit()
+        internal_fit(ref, hist[-1]["k"])
         if not same(obj.B, ref.B, 1e-6) or not same(obj.X, ref.X, 1e-6):
             bad.append(("C14.ref-model", dict(q="fit()", **where0), np.asarray(ref.B).tolist(), np.asarray(obj.B).tolist()))
     # ---- heavy answers: object under test vs fresh object from the registered state; purity ---------
